@@ -253,6 +253,30 @@ pub fn digest(s: &BlockchainState) -> String {
     out
 }
 
+/// token balance changes of one account between two states: "TOKEN:nonce:+delta …"
+pub fn deltas(pre: &BlockchainState, post: &BlockchainState, a: &Address) -> String {
+    let mut m: BTreeMap<(Vec<u8>, u64), (BigUint, BigUint)> = BTreeMap::new();
+    for (st, first) in [(pre, true), (post, false)] {
+        if let Some(acc) = st.accounts.get(&vma(a)) {
+            for (t, d) in acc.esdt.iter() {
+                for (n, i) in d.instances.get_instances().iter() {
+                    let e = m.entry((t.clone(), *n)).or_default();
+                    if first { e.0 = i.balance.clone() } else { e.1 = i.balance.clone() }
+                }
+            }
+        }
+    }
+    let mut out = vec![];
+    for ((t, n), (x, y)) in m {
+        if x < y {
+            out.push(format!("{}:{}:+{}", String::from_utf8_lossy(&t), n, &y - &x));
+        } else if x > y {
+            out.push(format!("{}:{}:-{}", String::from_utf8_lossy(&t), n, &x - &y));
+        }
+    }
+    if out.is_empty() { "no balance change".into() } else { out.join(",") }
+}
+
 // =======================================================================================
 // argument encoding (top-level encoding of endpoint arguments, as a transaction carries them)
 // =======================================================================================
@@ -408,7 +432,6 @@ const FARMING: &[u8] = b"FARMING-abcdef";
 const FARMTOK: &[u8] = b"FARM-abcdef";
 const LOCKED: &[u8] = b"LOCKED-abcdef";
 const LEGACY: &[u8] = b"LEGACY-abcdef";
-const UNBOND: &[u8] = b"UNBOND-abcdef";
 
 fn b(x: u64) -> BigUint {
     BigUint::from(x)
@@ -517,7 +540,7 @@ fn build_pair(vm: &mut Vm, variant: &str, amt: u64) -> Uni {
         let _ = bd.ok("user", "pair", "addLiquidity", vec![a_u64(1), a_u64(1)], &[esdt(FIRST, 0, &base), esdt(SECOND, 0, &(&base * 2u32))]);
         bd.vm.set_round(20);
         for r in ROLES {
-            bd.ok(r, "pair", "addLiquidity", vec![a_u64(1), a_u64(1)], &[esdt(FIRST, 0, &b(100_000)), esdt(SECOND, 0, &b(200_000))]);
+            let _ = bd.ok(r, "pair", "addLiquidity", vec![a_u64(1), a_u64(1)], &[esdt(FIRST, 0, &b(100_000)), esdt(SECOND, 0, &b(200_000))]);
         }
         bd.vm.set_round(30);
         let _ = bd.ok("user", "pair", "swapTokensFixedInput", vec![SECOND.to_vec(), a_u64(1)], &[esdt(FIRST, 0, &b(1000))]);
@@ -825,6 +848,7 @@ fn staking_call(u: &Uni, e: &str, role: &str) -> Option<Call> {
 // energy-integration/fees-collector/tests/fees_collector_test_setup, lkmex_transfer_tests)
 // ---------------------------------------------------------------------------------------
 const BASE: &[u8] = b"MEX-abcdef";
+const LEGACY_NONCE: u64 = 2_286_815; // first nonce with the updated legacy attribute layout
 
 fn n_energy(amount: u64, epoch: u64, tokens: u64) -> Vec<u8> {
     let mut v = n_big(&b(amount));
@@ -868,8 +892,23 @@ fn build_locked(vm: &mut Vm, c: &str, variant: &str, amt: u64) -> Uni {
     bd.vm.set_roles(&unstake, BASE, &["ESDTRoleLocalBurn"]);
     bd.vm.set_roles(&unstake, LOCKED, &["ESDTRoleNFTBurn"]);
     bd.vm.set_roles(&fees, LOCKED, &["ESDTRoleNFTBurn"]);
-    // while still paused: mark `user` as having its old-token energy updated
-    let _ = bd.ok("owner", "energy", "setEnergyForOldTokens", vec![a_addr(&bd.ad("user")), vec![], vec![]], &[]);
+    // while still paused: every role gets a legacy (old factory) locked position — 40 % unlocking at
+    // epoch 1000, 60 % at epoch 1500 — and the matching energy entry (locked-asset/energy-factory/tests/old_tokens_test.rs)
+    let mut legacy_attrs = 2u32.to_be_bytes().to_vec();
+    for (ep, pct) in [(1000u64, 40_000u64), (1500, 60_000)] {
+        legacy_attrs.extend_from_slice(&ep.to_be_bytes());
+        legacy_attrs.extend_from_slice(&pct.to_be_bytes());
+    }
+    legacy_attrs.push(0); // is_merged = false
+    let mut old_args = vec![];
+    for r in ROLES {
+        let x = bd.ad(r);
+        bd.vm.set_nft(&x, LEGACY, LEGACY_NONCE, &b(1_000_000), legacy_attrs.clone());
+        if !vma(&x).is_smart_contract_address() {
+            old_args.extend(vec![a_addr(&x), a_u64(1_000_000), a_u64(1_300_000_000)]);
+        }
+    }
+    let _ = bd.ok("owner", "energy", "setEnergyForOldTokens", old_args, &[]);
     let _ = bd.ok("owner", "energy", "unpause", vec![], &[]);
     let _ = bd.ok("owner", "energy", "setTokenUnstakeAddress", vec![a_addr(&unstake)], &[]);
     let _ = bd.ok("owner", "unstake", "init", vec![a_u64(10), a_addr(&energy), a_u64(5000), a_addr(&fees)], &[]);
@@ -939,6 +978,7 @@ fn locked_call(u: &Uni, c: &str, e: &str, role: &str) -> Option<Call> {
     match (c, e) {
         ("energy", "lockTokens") => callp(vec![a_u64(360)], vec![esdt(BASE, 0, &amt)]),
         ("energy", "unlockTokens") => callp(vec![], vec![lk("lk360")]),
+        ("energy", "migrateOldTokens") => callp(vec![], vec![esdt(LEGACY, LEGACY_NONCE, &amt)]),
         ("energy", "extendLockPeriod") => callp(vec![a_u64(1440), a_addr(me)], vec![lk("lk720")]),
         ("energy", "adjustUserEnergy") => call(vec![a_addr(u.addr("user")), vec![], vec![]]),
         ("energy", "issueLockedToken") => Some(Call { args: vec![b"Locked".to_vec(), b"LOCKED".to_vec(), a_u64(18)], pay: vec![], egld: b(50_000_000) }),
@@ -1206,6 +1246,7 @@ const VARIANTS: [(&str, &str); 22] = [
 struct World {
     vm: Vm,
     amt: u64,
+    live: Option<Uni>, // state-machine histories run on ONE evolving deployment
     bases: HashMap<String, Uni>,
     unis: HashMap<String, Uni>,
     abis: BTreeMap<&'static str, ContractAbi>,
@@ -1219,7 +1260,7 @@ impl World {
         for c in CONTRACTS {
             abis.insert(c, abi_of(c));
         }
-        World { vm, amt: kv_u64(header, "amt", 0), bases: HashMap::new(), unis: HashMap::new(), abis }
+        World { vm, amt: kv_u64(header, "amt", 0), live: None, bases: HashMap::new(), unis: HashMap::new(), abis }
     }
 
     fn base(&mut self, c: &str, variant: &str) -> Uni {
@@ -1334,6 +1375,24 @@ impl World {
     fn exec(&mut self, tr: &mut Trace, text: &str) {
         let n = tr.op(text);
         let w: Vec<&str> = text.split_whitespace().collect();
+        if w[0] == "sm" {
+            self.exec_sm(tr, n, &w);
+            return;
+        }
+        if w[0] == "abi" {
+            // inventory line: what the freshly compiled contract exports (flags from its ABI);
+            // the model must have the endpoint classified with matching flags
+            let (c, e) = (w[1], w[2]);
+            let ep = self.abis[c].endpoints.iter().find(|x| x.name == e);
+            tr.count("abi.endpoint");
+            match ep {
+                Some(x) if w[3] == format!("owner={}", x.only_owner as u8) && w[4] == format!("ro={}", is_readonly(x) as u8) => {
+                    tr.res_ok(n, &format!("abi {c}.{e}"), &format!("{} {}", w[3], w[4]))
+                }
+                _ => tr.res_err(n), // the ops file no longer matches the compiled contract
+            }
+            return;
+        }
         let (kind, c, e, role, state) = (w[0], w[1], w[2], w[3], w[4]);
         let key = format!("{c}.{e}.{role}.{state}");
         let class = class_of(&self.abis[c], c, e);
@@ -1357,6 +1416,9 @@ impl World {
         let post = digest(self.vm.state());
         tr.count(&format!("cell.{}", if ok { "ok" } else { "err" }));
         tr.count(&format!("{c}.{}", if ok { "ok" } else { "err" }));
+        if std::env::var("VERIF_VERBOSE").is_ok() && ok && class == Class::UserFunds {
+            eprintln!("{key}: ok {}", deltas(&u.snap, self.vm.state(), &from));
+        }
         if std::env::var("VERIF_VERBOSE").is_ok() && !ok {
             eprintln!("{key}: {} {}", res.result_status, res.result_message);
         }
@@ -1371,13 +1433,18 @@ impl World {
                     tr.fail("C19", "admin_needs_role", e, &format!("{key}: configuration endpoint succeeded for an unprivileged caller"))
                 }
                 Class::UserFunds if state != "active" => {
-                    tr.fail("C19", "paused_blocks_funds", e, &format!("{key}: fund-moving user endpoint succeeded while the contract is {state}"))
+                    let d = deltas(&u.snap, self.vm.state(), &from);
+                    tr.fail("C19", "paused_blocks_funds", base_name(e), &format!("{key}: fund-moving user endpoint succeeded while the contract is {state}; caller balances: {d}"))
                 }
                 Class::PairLiquidity if state == "inactive" => {
                     tr.fail("C19", "paused_blocks_funds", e, &format!("{key}: liquidity operation succeeded on an inactive pair"))
                 }
                 Class::Bootstrap if c == "pair" && state != "inactive" => {
                     tr.fail("C19", "bootstrap_only_inactive", e, &format!("{key}: initial liquidity accepted on a non-inactive pair"))
+                }
+                Class::OnBehalfHub | Class::OnBehalfSc if state != "active" => {
+                    let d = deltas(&u.snap, self.vm.state(), &from);
+                    tr.fail("C19", "paused_blocks_funds", base_name(e), &format!("{key}: on-behalf endpoint succeeded while the contract is {state}; caller balances: {d}"))
                 }
                 Class::OnBehalfHub if role != "agent" => {
                     tr.fail("C19", "on_behalf_rules", e, &format!("{key}: on-behalf call accepted without a valid hub authorisation"))
@@ -1425,6 +1492,157 @@ impl World {
     }
 }
 
+// ---------------------------------------------------------------------------------------
+// state-machine histories: the permission bit-set / pausable / sc-whitelist / hub endpoints
+// applied in random order by random callers on ONE evolving deployment; after every op the
+// complete observable access state is printed (model: PermSt / PauseSt / WlSt / HubSt .step)
+// ---------------------------------------------------------------------------------------
+impl World {
+    fn view_bytes(&mut self, to: &Address, func: &str, args: Vec<Vec<u8>>) -> Vec<u8> {
+        let from = self.live.as_ref().unwrap().addr("fresh").clone();
+        let r = self.vm.call(&from, to, func, args, &[], &BigUint::zero());
+        assert!(r.result_status == 0, "view {func} failed: {}", r.result_message);
+        r.result_values.first().cloned().unwrap_or_default()
+    }
+
+    fn exec_sm(&mut self, tr: &mut Trace, n: u64, w: &[&str]) {
+        // sm perm <c> <op> <caller> [<target>] | sm wl <c> <op> <caller> <target> | sm hub <op> <caller> <target>
+        let kind = w[1];
+        let c = if kind == "hub" { "hub" } else { w[2] };
+        if self.live.is_none() {
+            let u = self.uni(c, "std", "active");
+            self.vm.restore(&u.snap);
+            self.live = Some(u);
+        }
+        let u = self.live.clone().unwrap();
+        let rest: Vec<&str> = if kind == "hub" { w[2..].to_vec() } else { w[3..].to_vec() };
+        let (opn, caller) = (rest[0], rest[1]);
+        let target = rest.get(2).copied().unwrap_or("user");
+        tr.count(&format!("sm.{kind}.{opn}"));
+        let from = u.addr(caller).clone();
+        let t = a_addr(u.addr(target));
+        let (func, args): (&str, Vec<Vec<u8>>) = match (kind, opn) {
+            ("perm", "addAdmin") => ("addAdmin", vec![t]),
+            ("perm", "removeAdmin") => ("removeAdmin", vec![t]),
+            ("perm", "addPause") => ("addToPauseWhitelist", vec![t]),
+            ("perm", "removePause") => ("removeFromPauseWhitelist", vec![t]),
+            ("perm", "updateOwnerOrAdmin") => ("updateOwnerOrAdmin", vec![t]),
+            ("perm", "pause") => ("pause", vec![]),
+            ("perm", "resume") => ("resume", vec![]),
+            ("perm", "noswaps") => ("setStateActiveNoSwaps", vec![]),
+            ("wl", "add") => ("addSCAddressToWhitelist", vec![t]),
+            ("wl", "remove") => ("removeSCAddressFromWhitelist", vec![t]),
+            ("hub", "whitelist") => ("whitelist", vec![t]),
+            ("hub", "removeWhitelist") => ("removeWhitelist", vec![t]),
+            ("hub", "blacklist") => ("blacklist", vec![t]),
+            ("hub", "removeBlacklist") => ("removeBlacklist", vec![t]),
+            _ => panic!("unknown sm op {kind} {opn}"),
+        };
+        let pre = digest(self.vm.state());
+        let res = self.vm.call(&from, &u.sc, func, args, &[], &BigUint::zero());
+        let ok = res.result_status == 0;
+        if !ok {
+            if pre != digest(self.vm.state()) {
+                tr.fail("C19", "rejected_call_changes_state", func, "chain state differs after a failed call");
+            }
+            tr.count("sm.err");
+            tr.res_err(n);
+            return;
+        }
+        tr.count("sm.ok");
+        tr.count(&format!("sm.ok.{kind}.{opn}"));
+        let sc = u.sc.clone();
+        let line = match kind {
+            "perm" => {
+                let mut parts = vec![];
+                for r in ROLES {
+                    let v = self.view_bytes(&sc, "getPermissions", vec![a_addr(u.addr(r))]);
+                    let bits = v.iter().fold(0u64, |a, x| a * 256 + *x as u64);
+                    parts.push(format!("{}{}{}", bits & 1, (bits >> 1) & 1, (bits >> 2) & 1));
+                }
+                let stn = if c == "lkmex" {
+                    "active" // no pausable module
+                } else {
+                    let st = self.view_bytes(&sc, "getState", vec![]);
+                    match st.first().copied().unwrap_or(0) { 0 => "inactive", 1 => "active", _ => "partial" }
+                };
+                format!("perms={} st={}", parts.join(","), stn)
+            }
+            "wl" => {
+                let mut parts = vec![];
+                for r in ROLES {
+                    let v = self.view_bytes(&sc, "isSCAddressWhitelisted", vec![a_addr(u.addr(r))]);
+                    parts.push(if v.is_empty() { "0" } else { "1" });
+                }
+                format!("wl={}", parts.join(""))
+            }
+            _ => {
+                let mut rows = vec![];
+                for usr in ["user", "agent", "owner"] {
+                    let mut row = String::new();
+                    for r in ROLES {
+                        let v = self.view_bytes(&sc, "isWhitelisted", vec![a_addr(u.addr(usr)), a_addr(u.addr(r))]);
+                        row += if v.is_empty() { "0" } else { "1" };
+                    }
+                    rows.push(row);
+                }
+                format!("auth={}", rows.join(","))
+            }
+        };
+        // oracle: C19's own reading of these modules, on the real outcome
+        let callers_ok = match (kind, opn) {
+            ("perm", "pause" | "resume") | ("hub", "whitelist" | "removeWhitelist") => true,
+            _ => matches!(caller, "owner" | "router" | "admin" | "pauser"),
+        };
+        if !callers_ok {
+            tr.fail("C19", "admin_needs_role", func, &format!("{func} succeeded for unprivileged caller {caller}"));
+        }
+        tr.res_ok(n, "sm", &line);
+    }
+}
+
+fn gen_sm(a: &Args, tr: &mut Trace, rng: &mut Rng) {
+    for h in 0..a.hist {
+        let kinds = ["perm", "perm", "hub", "wl"];
+        let kind = kinds[(h % 4) as usize];
+        let c = match kind {
+            "perm" => *rng.pick(&["pair", "farm", "fwlr", "staking", "lkmex"]),
+            "wl" => *rng.pick(&["farm", "fwlr", "staking", "energy", "fees"]),
+            _ => "hub",
+        };
+        let header = format!("contract={c} sm={kind} amt=0");
+        tr.world(&format!("access {header}"));
+        let mut w = World::new(&header);
+        let roles = roles_of(if kind == "perm" && c == "pair" { "pair" } else { "farm" });
+        for _ in 0..a.len {
+            // callers: mostly somebody who can succeed, often somebody who cannot
+            let sc_owner = if c == "pair" { "router" } else { "owner" };
+            let caller = if rng.chance(13, 20) { *rng.pick(&["owner", "owner", sc_owner, "pauser"]) } else { *rng.pick(roles) };
+            let target = *rng.pick(roles);
+            let text = match kind {
+                "perm" => {
+                    let ops: &[&str] = if c == "pair" {
+                        &["addAdmin", "removeAdmin", "addPause", "removePause", "updateOwnerOrAdmin", "pause", "resume", "noswaps"]
+                    } else if c == "lkmex" {
+                        &["addAdmin", "removeAdmin", "updateOwnerOrAdmin"]
+                    } else {
+                        &["addAdmin", "removeAdmin", "addPause", "removePause", "updateOwnerOrAdmin", "pause", "resume"]
+                    };
+                    let o = *rng.pick(ops);
+                    if matches!(o, "pause" | "resume" | "noswaps") { format!("sm perm {c} {o} {caller}") } else { format!("sm perm {c} {o} {caller} {target}") }
+                }
+                "wl" => format!("sm wl {c} {} {caller} {target}", rng.pick(&["add", "remove"])),
+                _ => {
+                    let o = *rng.pick(&["whitelist", "whitelist", "removeWhitelist", "blacklist", "removeBlacklist"]);
+                    let caller = if matches!(o, "whitelist" | "removeWhitelist") { *rng.pick(&["user", "user", "agent", "owner"]) } else { caller };
+                    format!("sm hub {o} {caller} {target}")
+                }
+            };
+            w.exec(tr, &text);
+        }
+    }
+}
+
 fn shuffle<T>(rng: &mut Rng, v: &mut [T]) {
     for i in (1..v.len()).rev() {
         let j = rng.below(i as u64 + 1) as usize;
@@ -1452,6 +1670,9 @@ fn gen(a: &Args, tr: &mut Trace) {
             }
         }
         let mut cells: Vec<String> = vec![];
+        for x in w.abis[c].endpoints.iter() {
+            cells.push(format!("abi {c} {} owner={} ro={}", x.name, x.only_owner as u8, is_readonly(x) as u8));
+        }
         for e in eps.iter() {
             let class = class_of(&w.abis[c], c, e);
             // can a valid call be constructed at all? (probe on the active universe with the owner)
@@ -1477,6 +1698,9 @@ fn gen(a: &Args, tr: &mut Trace) {
         for cell in cells {
             w.exec(tr, &cell);
         }
+    }
+    if only.is_none() {
+        gen_sm(a, tr, &mut rng);
     }
 }
 
